@@ -11,7 +11,9 @@
 package vsched
 
 import (
+	"cmp"
 	"fmt"
+	"slices"
 	"runtime"
 	"sort"
 	"strconv"
@@ -804,6 +806,17 @@ func role() string {
 		last = last[i+1:]
 	}
 	return last
+}
+
+// SortedKeys returns the keys of m in ascending order (used by the overlay's rewrite of
+// range-over-map statements).
+func SortedKeys[K cmp.Ordered, V any](m map[K]V) []K {
+	keys := make([]K, 0, len(m))
+	for k := range m {
+		keys = append(keys, k)
+	}
+	slices.Sort(keys)
+	return keys
 }
 
 // Namer, when set by the harness, maps the address of a shim lock to a class name
